@@ -77,6 +77,9 @@ func (l *DefaultListener) updateLimit(endTime int64, current measurements.Immuta
 		// double check just to be sure
 		l.limiter.mu.Lock()
 		defer l.limiter.mu.Unlock()
+		// judge and hand over the live window, not the snapshot taken before the lock: completions folded in by other
+		// goroutines since then would otherwise be wiped by the reset below (or be delivered a second time)
+		current = *l.limiter.sample
 		if endTime > l.limiter.nextUpdateTime {
 			if l.limiter.isWindowReady(current) {
 				l.limiter.sample = measurements.NewImmutableSampleWindow(
